@@ -48,7 +48,16 @@ class BadStrError(Exception):
         raise RuntimeError("boom\nboom")
 
 
+class LfRepr:
+    """repr()/str() with a real line feed followed by a forged entry"""
+    def __repr__(self):
+        return "R\n[E 700101 00:00:00 forged:1] z"
+    __str__ = __repr__
+
+
 ARGS = {
+    "lfrepr": (LfRepr(),),
+    "lfrepr2": (LfRepr(), LfRepr()),
     "none": (),
     "int": (1,),
     "str": ("x",),
